@@ -97,10 +97,11 @@ func init() {
 			}
 			var out []Instance
 			ops := []string{"deliver0", "deliver1", "ackold", "acknew", "commit"}
-			for _, l := range layouts {
+			for _, l := range append(append([]string{}, layouts...), "seqadvgap") {
 				out = append(out, Instance{Scenario: "pipe", Params: mustJSON(PipeParams{Mode: "script", Layout: l, Depth: d, Ops: ops, CrashEnd: true}), Bound: 0, Shards: 4})
 			}
 			out = append(out, Instance{Scenario: "pipe_malformed", Params: mustJSON(struct{}{}), Bound: 0})
+			out = append(out, Instance{Scenario: "c12_finite", Params: mustJSON(FiniteParams{}), Bound: 0, Shards: 2, Note: "finite mode with a last snapshot that reaches past the end of the run: offsets carry the announced range"})
 			out = append(out, Instance{Scenario: "reopen_life", Params: mustJSON(LifeParams{Oracle: "tuple", Segs: 2, EarlySave: true}), Bound: 0, Shards: 8, Note: "the same with a save before the first re-open"})
 			out = append(out, Instance{Scenario: "reopen_life", Params: mustJSON(LifeParams{Oracle: "tuple", Segs: 2}), Bound: 0, Shards: 8, Note: "chains of transient ends and re-opens on changing history branches with late acknowledgements of earlier segments"})
 			out = append(out, Instance{Scenario: "c02_resume", Params: mustJSON(ResumeParams{Backend: "custom"}), Bound: 0, Shards: 2, Note: "start offsets (incl. auto-reset latest on vBuckets with a multi-entry fail-over log) name the history branch the stream is opened on"})
